@@ -33,6 +33,10 @@ Lemma nonvacuous_roundtrip_witness :
     Some [([95; 118; 118], OU KObj); ([97], OU KStr); (k_id, OG); (k_rev, OG); (k_cv, OG)] /\
   read idv (XGet true true) mt {| sd_ms := [([97], KNum); ([97], KStr)]; sd_trailing := false |} =
     Some [([97], OU KStr); (k_id, OG); (k_rev, OG); (k_revisions, OG); (k_exp, OG); (k_cv, OG)] /\
-  leak EPutNE k_exp KTrue = true /\ leak EBlip k_cv KStr = true /\ leak EImport k_deleted KTrue = true /\
-  leak EPut k_exp KNull = true /\ leak EBlip k_attachments KNull = true.
+  leak EPutNE k_exp KNull = true /\ leak EImport k_attachments KObj = true /\ leak EImport k_deleted KTrue = true /\
+  leak EPut k_exp KNull = true /\ leak EBlip k_attachments KNull = true /\
+  accept EPutNE (TObj [(k_exp, KNull, false)] false) = RStored [(k_exp, KNull)] false /\
+  accept EBlip (TObj [(k_attachments, KNull, false)] false) = RStored [(k_attachments, KNull)] true /\
+  accept EImport (TObj [(k_deleted, KTrue, false); (k_attachments, KObj, false)] false) =
+    RStored [(k_deleted, KTrue); (k_attachments, KObj)] true.
 Proof. intros idv raw mt. repeat split; vm_compute; reflexivity. Qed.
